@@ -22,7 +22,7 @@ RULE = ('Hypothesis-generated base histories (dispatch / disable / enable / add_
         'faults then at sampled positions around the powers of two). Each base history is executed fault-free and then once for EVERY pair (global delivery '
         'position k, fault in {raise RuntimeError, raise Quit, raise SwitchWorld, set dispatch_enabled=False, '
         're-entrant dispatch_enabled=True, disable-then-enable inside the callback, disable and dispatch a further '
-        'event inside the callback}), '
+        'event inside the callback, register another handler inside the callback, remove another handler inside the callback}), '
         'followed by enable; dispatch; enable; dispatch; enable. Oracle = trace invariants: an event dispatched while '
         'dispatching is enabled (also after a release cut short by an exception) reaches its listeners at once; no '
         'callback while disabled (except the remaining listeners of the very occurrence during which a callback '
@@ -41,14 +41,17 @@ ASSUMPTIONS = [
     'not yet reached may or may not receive it later (0 or 1 deliveries)',
     'events dispatched while enabled are not ordered relative to a backlog left behind by an exception',
     'occurrences whose name had no listener when they were dispatched may or may not be delivered',
-    'callbacks do not add or remove handlers (that is C03)',
+    'callbacks do not add or remove handlers (that is C03), except for the two injected faults that do exactly that: '
+    'a handler registered by a callback is owed the occurrences dispatched after the one being delivered, a handler '
+    'removed by a callback may still get the occurrence being delivered and nothing after it',
     'in runs whose injected fault is a re-entrant enable (or disable-then-enable) from a callback the per-listener '
     'dispatch order is not judged (the nested release overtakes the outer one by construction)',
     'enable runs under a budget of 100000 executed lines inside desper (normal releases need < 1000)',
 ]
 FINDINGS = {}
 EVENTS = ['a', 'b', 'c', 'd']
-FAULTS = ['RuntimeError', 'Quit', 'SwitchWorld', 'disable', 'enable', 'toggle', 'disable_dispatch']
+FAULTS = ['RuntimeError', 'Quit', 'SwitchWorld', 'disable', 'enable', 'toggle', 'disable_dispatch', 'register',
+          'unregister']
 ENABLE_BUDGET = 100000
 CLOSING = [['enable'], ['dispatch', 0], ['enable'], ['dispatch', 5], ['enable']]
 
@@ -193,6 +196,8 @@ class Execution:
         self.tolerate_token = None      # occurrence during which a callback disabled dispatching
         self.last_token_per_handler = {}
         self.current_exc = None
+        self.added_at = {}              # handler registered by a callback -> occurrence during which that happened
+        self.removed_at = {}
         self.in_release = False
         self.release_positions = 0
         self.max_pending_at_release = 0
@@ -218,7 +223,8 @@ class Execution:
         self.deliveries += 1
         if self.in_release:
             self.release_positions += 1
-        if h.ix not in self.registered:
+        if h.ix not in self.registered and not (h.ix in self.removed_at and self.removed_at[h.ix] == token):
+            # (a handler removed by a callback may or may not still get the occurrence during which it was removed)
             self.viol('callback_for_unregistered_handler', handler=h.ix, token=token)
         if ev not in h.evs or self.events_of.get(token) != ev:
             self.viol('callback_on_wrong_method_or_with_foreign_argument', handler=h.ix, event=ev, token=token)
@@ -254,6 +260,28 @@ class Execution:
                     self.op_dispatch(12 + EVENTS.index(ev) if ev in EVENTS else 12)
                 finally:
                     self._in_bulk = False
+            elif kind in ('register', 'unregister'):
+                # "...to the handlers registered at delivery time": the callback changes who is registered while
+                # further occurrences are pending - a handler registered now is owed every LATER occurrence of its
+                # events (this one: 0 or 1), a handler removed now gets none of them
+                ids = sorted(i for i in self.handlers if i < 100)
+                if kind == 'register':
+                    cands = [i for i in ids if i not in self.registered]
+                    if cands:
+                        j = cands[k % len(cands)]
+                        self.d.add_handler(self.handlers[j])
+                        self.registered.add(j)
+                        self.added_at[j] = token
+                        self.removed_at.pop(j, None)
+                        self.flags['handler_registered_by_a_callback'] += 1
+                else:
+                    cands = [i for i in ids if i in self.registered and i != h.ix]
+                    if cands:
+                        j = cands[k % len(cands)]
+                        self.d.remove_handler(self.handlers[j])
+                        self.registered.discard(j)
+                        self.removed_at[j] = token
+                        self.flags['handler_removed_by_a_callback'] += 1
             elif kind in ('enable', 'toggle'):
                 # re-entrant enabling from a callback (toggle: disable first).  The nested release legitimately
                 # hands later occurrences to listeners that have not yet seen the current one, so dispatch order
@@ -418,7 +446,8 @@ class Execution:
         q = self.queued[t]
         if q.get('only') is not None:
             return [q['only']] if q['only'] in self.registered else []
-        return [h for h in self.registered if q['event'] in self.handlers[h].evs]
+        return [h for h in self.registered if q['event'] in self.handlers[h].evs
+                and not (h in self.added_at and self.added_at[h] is not None and t <= self.added_at[h])]
 
     def op_spawn(self, n):
         """World mode: one create_entity call with 1-3 handler components; each on_add is an occurrence of its own"""
